@@ -552,6 +552,27 @@ def hard_events(ctx, rnd, quick):
     for q in longs[:2]:
         for dev in ("stack", "bubble"):
             add({"op": "Sortable", "dev": dev, "p": q})
+    # 5d. long inputs outside the domain of the Simion-Schmidt map: every arrangement of four entries holding the forbidden
+    #     pattern, put in front of / behind / on top of / below a long member of the domain (the occurrence sits in the first
+    #     or last four entries: TLC finds it at once)
+    import itertools
+    m = n - 4
+    for inv in (True, False):
+        patt = (0, 2, 1) if inv else (0, 1, 2)
+        four = [f for f in itertools.permutations(range(4)) if Perm(f).contains(Perm(patt))]
+        member = list(range(m - 1, -1, -1))                          # a decreasing run avoids both 132 and 123
+        for f in four:
+            for place in range(2):                                   # (only in front: TLC and the library meet the occurrence at once)
+                if place == 0:                                       # in front, above
+                    q = [v + m for v in f] + member
+                elif place == 1:                                     # in front, below
+                    q = list(f) + [v + 4 for v in member]
+                elif place == 2:                                     # behind, above
+                    q = member + [v + m for v in f]
+                else:                                                # behind, below
+                    q = [v + 4 for v in member] + list(f)
+                st, got = util.call(Bijections.simion_and_schmidt, Perm(q), inv)
+                events.append({"op": "SSLong", "inv": inv, "p": q, "raised": st == "raise", "exc": got if st == "raise" else ""})
     # 6. dihedral_group: keyword form, asked twice, two lazy listings alive at once
     for n in range(0, 11):
         add({"op": "Group", "n": n, "form": "kw"})
